@@ -122,6 +122,10 @@ class Symbol(ExpressionToken):
         if extern_mapping:
             extern = compiler.symbols.get(extern_mapping[1])
             if extern:
+                if state["internal_symbol_prefix"] in compiler.unfinished_internal_prefixes:
+                    # The file is still being compiled: its own definition of this name, which
+                    # takes precedence over another file's exported one, may still follow
+                    not_ready()
                 return extern
 
         not_ready()
